@@ -10,6 +10,13 @@ replay rebuild the object):
   c18sseq <K> <L> <k> <M1…Mk> <L symbols> <tail>
       answer: the view of ONE striped sequence after 0..k calls of calculate, joined by " ; "
 
+  c18copy <how> <a c18idx | c18buf | c18sseq line>
+      the same observations made on a COPY of the object: how ∈ copy (obj.copy()) | copycopy (copy.copy(obj)) |
+      deepcopy (copy.deepcopy(obj)), with the suffix +used when the object was used before the copy was taken
+      (enc: striped and scored; sseq: the reuse steps are scan() / Scanner() instead of calculate()).  For
+      c18sseq the copy is taken after each of the 0..k steps, so both fresh and already-configured sequences
+      are copied.  answer: the answer of the inner line | <exception raised by the copy operation>
+
   tail := <alpha: 0 dna | 1 protein> <backend: 0 auto | 1 generic | 2 sse2 | 3 avx2> <class-specific reconstruction data>
 
 The values on the line are the LOGICAL contents, obtained independently of the access path under
@@ -55,6 +62,35 @@ def mk_scoring(lm, alpha, rows_bits):
 
 def mk_striped(lm, alpha, syms):
     return lm.stripe("".join(letters(alpha)[s] for s in syms), protein=(alpha == "protein"))
+
+
+# ------------------------------------------------------------------ copies
+COPY_HOW = None     # None: observe the object itself; else how the observed object is derived from it
+
+
+class CopyRaised(Exception):
+    def __init__(self, outcome, msg):
+        Exception.__init__(self, outcome)
+        self.outcome, self.msg = outcome, msg
+
+
+def observed(obj):
+    """the object the observations are made on: `obj` itself, or a copy of it taken now"""
+    if COPY_HOW is None:
+        return obj
+    import copy as _copy
+    how = COPY_HOW.split("+")[0]
+    f = {"copy": lambda: obj.copy(), "copycopy": lambda: _copy.copy(obj), "deepcopy": lambda: _copy.deepcopy(obj)}[how]
+    g = guarded(f)
+    if g[0] != "ok":
+        raise CopyRaised(g[0], g[1])
+    if g[1] is obj or type(g[1]) is not type(obj):
+        raise CopyRaised("not-a-copy", f"{how} returned {'the object itself' if g[1] is obj else type(g[1]).__name__}")
+    return g[1]
+
+
+def used_first():
+    return COPY_HOW is not None and COPY_HOW.endswith("+used")
 
 
 # ------------------------------------------------------------------ definitions (independent of the module)
@@ -149,6 +185,14 @@ def check_view(mv, items, logical, fmt, itemsize, bits, what):
     return None
 
 
+def use_enc(lm, alpha, enc):
+    """use an EncodedSequence the way a caller does before copying it: stripe it and score the result"""
+    K = K_of(alpha)
+    st = enc.stripe()
+    mk_scoring(lm, alpha, [[f32_bits(1.0)] * K for _ in range(3)]).calculate(st)
+    len(enc), str(enc)
+
+
 # ------------------------------------------------------------------ c18idx
 def exec_idx(lm, core, t):
     cls, w, rows, n, idx = t[1], int(t[2]), int(t[3]), int(t[4]), int(t[5])
@@ -160,6 +204,8 @@ def exec_idx(lm, core, t):
     common.set_backend(backend)
     if cls == "enc":
         obj = mk_enc(lm, alpha, vals)
+        if used_first():
+            use_enc(lm, alpha, obj)
         conv = lambda x: [x]
     elif cls == "counts":
         obj = mk_counts(lm, alpha, logical)
@@ -181,6 +227,7 @@ def exec_idx(lm, core, t):
         conv = lambda x: [f32_bits(x)]
     else:
         raise ValueError(cls)
+    obj = observed(obj)
     gl = guarded(lambda: len(obj))
     length = gl[1] if gl[0] == "ok" else gl[0]
     g = guarded(lambda: obj[idx])
@@ -226,10 +273,13 @@ def exec_buf(lm, core, t):
     extra = None
     if cls == "enc":
         obj = mk_enc(lm, alpha, vals)
+        if used_first():
+            use_enc(lm, alpha, obj)
+        obj = observed(obj)
         logical, fmt, size, bits = vals, "B", 1, (lambda x: x)
         elementwise = lambda: [obj[i] for i in range(len(obj))]
     elif cls == "scoring":
-        obj = mk_scoring(lm, alpha, matrix)
+        obj = observed(mk_scoring(lm, alpha, matrix))
         logical, fmt, size, bits = matrix, "f", 4, f32_bits
         elementwise = lambda: [[f32_bits(x) for x in obj[i]] for i in range(len(obj))]
     elif cls in ("scores", "dist"):
@@ -238,13 +288,13 @@ def exec_buf(lm, core, t):
         pssm = [[int(x) for x in tail[1 + i * K:1 + (i + 1) * K]] for i in range(M)]
         p = mk_scoring(lm, alpha, pssm)
         if cls == "dist":
-            obj = p.score_distribution
+            obj = observed(p.score_distribution)
             logical, fmt, size, bits = vals, "d", 8, f64_bits
             elementwise = None
         else:
             L = int(tail[1 + M * K])
             syms = [int(x) for x in tail[2 + M * K:2 + M * K + L]]
-            obj = p.calculate(mk_striped(lm, alpha, syms))
+            obj = observed(p.calculate(mk_striped(lm, alpha, syms)))
             # the view is [column][row]
             logical = [[matrix[r][c] for r in range(rows)] for c in range(cols)]
             fmt, size, bits = "f", 4, f32_bits
@@ -297,17 +347,26 @@ def exec_sseq(lm, core, t):
     answers, err = [], None
     kept = []   # (scores object, its view, its logical contents): re-read after the sequence was reused
 
-    def look(step):
+    copies = []
+    what = "striped sequence" if COPY_HOW is None else f"{COPY_HOW} of a striped sequence"
+    scanning = used_first() and alpha == "dna"      # the reuse steps go through scan() / Scanner()
+    verb = "scan() / Scanner()" if scanning else "calculate()"
+
+    def look(step, target=None):
         nonlocal err
-        g = guarded(lambda: memoryview(seq))
+        if target is None:
+            target = observed(seq)        # the sequence itself, or a copy of it taken NOW (after `step` reuses)
+            if target is not seq:
+                copies.append(target)
+        g = guarded(lambda: memoryview(target))
         if g[0] != "ok":
             answers.append(g[0])
-            err = err or f"memoryview(striped sequence, L={L}) after {step} calculate() raised {g[0]}: {g[1]}"
+            err = err or f"memoryview({what}, L={L}) after {step} {verb} raised {g[0]}: {g[1]}"
             return
         mv = g[1]
         a, items = view_answer(mv, lambda x: x)
         answers.append(a)
-        e = check_view(mv, items, logical, "B", 1, (lambda x: x), f"memoryview(striped sequence L={L}) after {step} calculate()")
+        e = check_view(mv, items, logical, "B", 1, (lambda x: x), f"memoryview({what} L={L}) after {step} {verb}")
         err = err or e
         # released before the object is reused: a view kept across calculate() may dangle (known finding)
         mv.release()
@@ -316,6 +375,20 @@ def exec_sseq(lm, core, t):
     rng = common.Rng(fnv_nats(syms + Ms))
     for n, M in enumerate(Ms):
         pssm = [[f32_bits(float(rng.range(0, 6)) - 3.0) for _ in range(K)] for _ in range(M)]
+        if scanning:
+            def scan_step():
+                p = mk_scoring(lm, alpha, pssm)
+                sc = lm.scan(p, seq, threshold=1.0) if n % 2 == 0 else lm.Scanner(p, seq, 1.0)
+                hits = len(list(sc))
+                del sc
+                return hits
+            g = guarded(scan_step)
+            if g[0] != "ok":
+                answers.append(g[0])
+                err = err or f"scan() / Scanner() with a motif of {M} rows raised {g[0]}: {g[1]}"
+                break
+            look(n + 1)
+            continue
         g = guarded(lambda: mk_scoring(lm, alpha, pssm).calculate(seq))
         if g[0] != "ok":
             answers.append(g[0])
@@ -335,6 +408,19 @@ def exec_sseq(lm, core, t):
         e = check_view(mv, items, want, "f", 4, f32_bits, f"memoryview(scores, motif of {M} rows, L={L}) re-read after reuse")
         err = err or e
         mv.release()
+    if copies and err is None:
+        # the copies are objects of their own: scoring one (with a motif wider than any before) changes
+        # neither what it shows nor what the original and the other copies show
+        wide = max(Ms + [1]) + 7
+        pssm = [[f32_bits(1.0)] * K for _ in range(wide)]
+        g = guarded(lambda: mk_scoring(lm, alpha, pssm).calculate(copies[-1]))
+        if g[0] != "ok":
+            err = f"calculate() on a {what} with a motif of {wide} rows raised {g[0]}: {g[1]}"
+        else:
+            n0 = len(answers)
+            for target in [copies[-1], seq] + copies[:1]:
+                look(f"{len(Ms)} (+1 on the last copy)", target)
+            del answers[n0:]
     common.set_backend("auto")
     widths = [m for m in Ms if m > 0]
     nontrivial = len(widths) >= 2 and any(a < b for a, b in zip(widths, widths[1:])) and any(a > b for a, b in zip(widths, widths[1:]))
@@ -371,6 +457,28 @@ def exec_stale(lm, core, t):
     return line, "adm-ok", (err or True), True, "stale"
 
 
+def exec_copy(lm, core, t):
+    """c18copy <how> <inner line>: the observations of the inner line made on a copy of the object"""
+    global COPY_HOW
+    COPY_HOW = t[1]
+    cls = "sseq" if t[2] == "c18sseq" else t[3]
+    try:
+        ans, orc, nontrivial, key = exec_line_(lm, core, t[2:])
+    except CopyRaised as e:
+        # which classes can be copied is the model's business; the property only forbids a panic / a non-copy
+        ans = e.outcome
+        orc = True if e.outcome in ("TypeError", "AttributeError") else f"{COPY_HOW} of {cls}: {e.outcome}: {e.msg}"
+        nontrivial, key = False, f"{cls}"
+    else:
+        if cls == "sseq":
+            # a copy of a sequence that already carries look-ahead rows
+            nontrivial = any(int(m) >= 2 for m in t[6:6 + int(t[5])])
+    finally:
+        how, COPY_HOW = COPY_HOW, None
+        common.set_backend("auto")
+    return ans, orc, nontrivial, f"copy/{how}/{key.split('/')[-1]}"
+
+
 def exec_line(lm, core, line):
     t = line.split()
     if t[0] == "c18stale":
@@ -385,6 +493,8 @@ def exec_line_(lm, core, t):
         return exec_buf(lm, core, t)
     if t[0] == "c18sseq":
         return exec_sseq(lm, core, t)
+    if t[0] == "c18copy":
+        return exec_copy(lm, core, t)
     raise ValueError("unknown op " + t[0])
 
 
@@ -546,6 +656,55 @@ def generate(cfg, core):
     return [" ".join(c.split()) for c in cases]
 
 
+def copy_stream(cfg, core):
+    """the observations of the streams above on COPIES: obj.copy(), copy.copy(obj), copy.deepcopy(obj) of fresh
+    objects and of objects already used for scoring / scanning (own generator: the other streams are unchanged)"""
+    rng = common.Rng(cfg.seed ^ 0xC0B1)
+    cases = []
+    hows = ["copy", "copycopy", "copy+used", "copycopy+used"]
+    for alpha in ("dna", "protein"):
+        K = K_of(alpha)
+        a = 1 if alpha == "protein" else 0
+        # --- striped sequences: a copy after each of 0..k reuses (calculate; +used: scan() / Scanner() for DNA)
+        Ls = [0, 1, 31, 33, 64, 100, 257, 1025] + ([2049, 6000] if cfg.thorough else [])
+        for i, L in enumerate(Ls):
+            for j in range(2 if not cfg.thorough else 4):
+                how = hows[(i + j * 3 + a) % 4]
+                k = rng.range(1, 5)
+                Ms = [2, 15, 3, 33][:k] if j == 0 else [rng.pick([1, 2, 3, 5, 8, 13, 21, 40]) for _ in range(k)]
+                syms = rand_syms(rng, alpha, L)
+                cases.append(f"c18copy {how} c18sseq {K} {L} {len(Ms)} {join(Ms)} {join(syms)} {a} {rng.below(4)}")
+        cases.append(f"c18copy deepcopy c18sseq {K} 40 1 5 {join(rand_syms(rng, alpha, 40))} {a} 0")
+        # --- encoded sequences: view, len and every index of the copy
+        for i, n in enumerate([0, 1, 5, 33, 100] + ([1000] if cfg.thorough else [])):
+            syms = rand_syms(rng, alpha, n)
+            for how in (hows[i % 4], hows[(i + 2) % 4]):
+                cases.append(f"c18copy {how} c18buf enc {n} 1 {join(syms)} {a} 0")
+                for idx in sorted({0, -1, n - 1, n, -n, -n - 1, 2**63}):
+                    cases.append(f"c18copy {how} c18idx enc 1 0 {n} {idx} {join(syms)} {a} 0")
+        cases.append(f"c18copy deepcopy c18buf enc 5 1 {join(rand_syms(rng, alpha, 5))} {a} 0")
+        # --- the classes without copy(): the attempt is an ordinary exception
+        counts = [[rng.below(9) for _ in range(K)] for _ in range(3)]
+        scoring = [[rand_f32_bits(rng) for _ in range(K)] for _ in range(3)]
+        pssm = int_pssm(rng, alpha, 2)
+        ssyms = rand_syms(rng, alpha, 40)
+        matrix = [[score_at(alpha, pssm, ssyms, c * 2 + r) for c in range(32)] for r in range(2)]
+        for how in ("copy", "copycopy", "deepcopy"):
+            cases.append(f"c18copy {how} c18idx counts {K} 0 3 1 {join(flat(counts))} {a} 0")
+            cases.append(f"c18copy {how} c18buf scoring 3 {K} {join(flat(scoring))} {a} 0")
+            cases.append(f"c18copy {how} c18buf scores 2 32 {join(flat(matrix))} {tail_scores(alpha, 1, pssm, ssyms)}")
+    # --- random stream
+    for _ in range((200 if cfg.thorough else 20) * cfg.boost):
+        alpha = rng.pick(["dna", "dna", "protein"])
+        K = K_of(alpha)
+        a = 1 if alpha == "protein" else 0
+        L = rng.range(0, 1500)
+        k = rng.range(0, 5)
+        Ms = [rng.range(1, 45) for _ in range(k)]
+        cases.append(f"c18copy {rng.pick(hows)} c18sseq {K} {L} {k} {join(Ms)} {join(rand_syms(rng, alpha, L))} {a} {rng.below(4)}")
+    return [" ".join(c.split()) for c in cases]
+
+
 def stale_stream(cfg, out):
     """The dangling-view finding (a view exported BEFORE the object is reused).  Reading freed memory
     is undefined behaviour, so the cases are part of the stream only once the finding is recorded in
@@ -580,6 +739,7 @@ def run(cfg, lm):
     out = common.Out(cfg.out)
     cases = common.replay_cases(cfg.replay) if cfg.replay else generate(cfg, core)
     if not cfg.replay:
+        cases += copy_stream(cfg, core)
         cases += stale_stream(cfg, out)
     for c in cases:
         out.announce(c)
@@ -593,6 +753,8 @@ def run(cfg, lm):
             out.stat("outcome/IndexError")
         elif "OverflowError" in first:
             out.stat("outcome/OverflowError")
+        elif first and first[0] in ("TypeError", "AttributeError"):
+            out.stat("outcome/" + first[0])
         else:
             out.stat("outcome/ok")
         out.case(c, ans, orc, nontrivial)
